@@ -317,7 +317,7 @@ def run(ctx):
 
 
 MANIFEST_ENTRY = {
-    "technique": "static analysis: MIR who-may-construct and control-dependence of the MissingKey/SurplusKey sites with constant-switch (cfg!) pruning and must-pass-through of the reverse comparison; syn decision-table extraction of ParsedValue::merge and of the accessor partition",
-    "level_text": "Structural: the diagnostics are tied to exact control-flow positions (Vacant+Implicit; reverse comparison on every completing path, bypassable only by the compile-time feature switch), and the accept/reject table of value kinds is extracted and compared with the documented one. Decides for all projects where a diagnostic can or cannot arise; does not count them for a concrete project.",
+    "technique": "static analysis: abstract evaluation (rules/localemerge.py) of Locale::merge over default_to kind x suppress_key_warnings x five key-set shapes (which keys are reported missing / surplus, inserted, merged), of make_builder_keys and of the warning generator; MIR who-may-construct of the diagnostics and of the key set; syn decision-table extraction of ParsedValue::merge and of the accessor partition",
+    "level_text": "Structural / finite case analysis: MissingKey exactly for absent keys under an implicit fallback, SurplusKey exactly for keys the default set lacks (whatever the sizes of the sets) unless suppressed, accessors exactly from the default locale's key set, one deprecated function per warning - decided by evaluating the source over the shapes it can distinguish, plus who-may-emit on MIR. Does not count warnings for a concrete project.",
     "level_note": "Trusted: BTreeMap semantics, rustc deprecation warnings. Not decided: exact warning multiset for a concrete project.",
 }
